@@ -6,6 +6,7 @@ package lib
 
 import (
 	"sync"
+	"time"
 )
 
 // ---------------- correct ----------------
@@ -288,6 +289,73 @@ func Quit(n int) int {
 	return v
 }
 
+// SleepOrder starts n goroutines that sleep for different times and records the order in
+// which they wake: in simulated time that order is by duration.
+func SleepOrder(n int) int {
+	var mu sync.Mutex
+	var wg sync.WaitGroup
+	order := 0
+	for i := n; i >= 1; i-- {
+		wg.Add(1)
+		go func(i int) {
+			defer wg.Done()
+			time.Sleep(time.Duration(i) * time.Hour)
+			mu.Lock()
+			order = order*10 + i
+			mu.Unlock()
+		}(i)
+	}
+	wg.Wait()
+	return order
+}
+
+// TickerCount counts n ticks of a one-minute ticker (time has to skip ahead).
+func TickerCount(n int) int {
+	t := time.NewTicker(time.Minute)
+	defer t.Stop()
+	c := 0
+	for range t.C {
+		c++
+		if c == n {
+			break
+		}
+	}
+	return c
+}
+
+// WithTimeout: the work always finishes long before the timeout.
+func WithTimeout(n int) int {
+	done := make(chan int, 1)
+	go func() {
+		s := 0
+		for i := 1; i <= n; i++ {
+			s += i
+		}
+		done <- s
+	}()
+	timer := time.NewTimer(time.Hour)
+	defer timer.Stop()
+	select {
+	case v := <-done:
+		return v
+	case <-timer.C:
+		return -1
+	case <-time.After(2 * time.Hour):
+		return -2
+	}
+}
+
+// AfterFuncOnce arms an AfterFunc and waits for it.
+func AfterFuncOnce(n int) int {
+	ch := make(chan int, 1)
+	t := time.AfterFunc(time.Duration(n)*time.Second, func() { ch <- n * 2 })
+	v := <-ch
+	if t.Stop() {
+		return -1 // it has fired: Stop must report false
+	}
+	return v
+}
+
 // ---------------- defective ----------------
 
 var racy int
@@ -459,4 +527,54 @@ func FoundOrDone(n int) int {
 	case <-done:
 		return 0
 	}
+}
+
+type ttlEntry struct {
+	val     int
+	expires time.Time
+}
+
+var (
+	ttlMu      sync.Mutex
+	ttlMap     = map[int]*ttlEntry{}
+	ttlJanitor sync.Once
+)
+
+// ExpiringSquare caches k*k for a minute; a janitor goroutine sweeps every 30 s. The
+// sweep marks an entry dead (val = 0) in one critical section and deletes it in another;
+// a reader in between gets 0.
+func ExpiringSquare(k int) int {
+	ttlJanitor.Do(func() {
+		go func() {
+			t := time.NewTicker(30 * time.Second)
+			for range t.C {
+				ttlMu.Lock()
+				var dead []int
+				for key, e := range ttlMap {
+					if time.Now().After(e.expires) {
+						e.val = 0
+						dead = append(dead, key)
+					}
+				}
+				ttlMu.Unlock()
+				for _, key := range dead {
+					ttlMu.Lock()
+					delete(ttlMap, key)
+					ttlMu.Unlock()
+				}
+			}
+		}()
+	})
+	ttlMu.Lock()
+	if e, ok := ttlMap[k]; ok {
+		v := e.val
+		ttlMu.Unlock()
+		return v
+	}
+	ttlMu.Unlock()
+	v := k * k
+	ttlMu.Lock()
+	ttlMap[k] = &ttlEntry{val: v, expires: time.Now().Add(time.Minute)}
+	ttlMu.Unlock()
+	return v
 }
